@@ -27,6 +27,7 @@ fn main() {
         flush_pct: 5,
         commit_pct: *rng.pick(&[30, 60]),
         dup_pct: 0,
+        dup_near_pct: 5,
         noncausal_pct: 0,
         action_pct: *rng.pick(&[30, 60]),
         action_fail_pct: *rng.pick(&[30, 50]),
